@@ -27,8 +27,8 @@ EXTENDS Integers, Sequences, FiniteSets, TLC
 
 NONE == 0
 
-Max(a, b) == IF a > b THEN a ELSE b
-Min(a, b) == IF a < b THEN a ELSE b
+Max2(a, b) == IF a > b THEN a ELSE b
+Min2(a, b) == IF a < b THEN a ELSE b
 LastOf(s) == s[Len(s)]
 
 \* the sequence lo, lo+1, ..., hi (empty when hi < lo)
@@ -61,7 +61,7 @@ WindowCutoffs(c) == Grid(FirstCutoff(c), LastFeasible(c), c.sl)
 WindowTrain(c, k, cut) ==
     IF c.iw # NONE /\ k = 1 THEN Run(0, cut)           \* the initial window
     ELSE IF c.kind = "expanding" THEN Run(0, cut)
-    ELSE Run(Max(0, cut - c.wl + 1), cut)              \* part of the window inside the series
+    ELSE Run(Max2(0, cut - c.wl + 1), cut)              \* part of the window inside the series
 
 WindowOutcome(c) ==
     IF WindowReject(c) THEN Rejected
@@ -72,7 +72,7 @@ WindowOutcome(c) ==
 (* Single window: one split whose test window ends with the series.        *)
 SingleOutcome(c) ==
     LET cut == c.n - LastOf(c.fh) - 1 IN
-    Accepted(<< [train |-> (IF c.wl = NONE THEN Run(0, cut) ELSE Run(Max(0, cut - c.wl + 1), cut)),
+    Accepted(<< [train |-> (IF c.wl = NONE THEN Run(0, cut) ELSE Run(Max2(0, cut - c.wl + 1), cut)),
                  test  |-> Shift(cut, c.fh)] >>, << cut >>)
 
 (* Given cutoffs.                                                          *)
@@ -81,7 +81,7 @@ CutoffReject(c) == \/ SeqMax(c.cuts) >= c.n
 CutoffOutcome(c) ==
     IF CutoffReject(c) THEN Rejected
     ELSE Accepted([k \in DOMAIN c.cuts |->
-                      [train |-> Run(Max(0, c.cuts[k] - c.wl + 1), c.cuts[k]),
+                      [train |-> Run(Max2(0, c.cuts[k] - c.wl + 1), c.cuts[k]),
                        test  |-> Shift(c.cuts[k], c.fh)]], c.cuts)
 
 (* temporal_train_test_split by sizes (documented: unshuffled wrapper of   *)
